@@ -47,3 +47,39 @@ Example C12_example :
   snd (w_run_fault compress_none (Some 30) false (mk_wcfg 0 0 1024 8 0) [([1], [2]); ([3], [4; 5])]) = Fail (EIo IO_INJECTED) /\
   fst (w_run_fault compress_none (Some 30) false (mk_wcfg 0 0 1024 8 0) [([1], [2]); ([3], [4; 5])]) = 2.
 Proof. vm_compute. split; reflexivity. Qed.
+
+(* ================= the source failing under a reader =================
+   faulty_load ld j: the loader that fails its j-th block load (loads are numbered by the cursor's load
+   counter) with the injected I/O error.  For ANY loader, root, depth, state and history: if the
+   history runs to completion without the fault, then with the fault it is unchanged when load j is
+   not among its loads, and returns exactly the injected error — not a panic, not a success — when it
+   is; the same for a single operation, so earlier operations are unaffected and the operation during
+   which load j happens is the one that fails. *)
+From Grenad.model Require Import Spec.
+From Grenad.proofs Require Import ReaderRefine IoReader.
+
+Theorem C12_reader_fault_history : forall ld j root levels ops st st' rs,
+  run_ops ld root levels st ops = Done (st', rs) ->
+  cs_loads st <= cs_loads st' /\
+  (j < cs_loads st \/ cs_loads st' <= j -> run_ops (faulty_load ld j) root levels st ops = Done (st', rs)) /\
+  (cs_loads st <= j < cs_loads st' -> run_ops (faulty_load ld j) root levels st ops = Fail (EIo IO_INJECTED)).
+Proof. exact reader_fault_history. Qed.
+Print Assumptions C12_reader_fault_history.
+
+Theorem C12_reader_fault_step : forall ld j root levels st o st' r,
+  cstep ld root levels st o = Done (st', r) ->
+  cs_loads st <= cs_loads st' /\
+  (j < cs_loads st \/ cs_loads st' <= j -> cstep (faulty_load ld j) root levels st o = Done (st', r)) /\
+  (cs_loads st <= j < cs_loads st' -> cstep (faulty_load ld j) root levels st o = Fail (EIo IO_INJECTED)).
+Proof. exact reader_fault_step. Qed.
+Print Assumptions C12_reader_fault_step.
+
+(* on a well-formed store every admissible operation returns (no panic, no error of its own), hence
+   under a failing source it returns the same or the injected error *)
+Theorem C12_reader_no_panic : forall ld j root levels bs, wf_store ld root levels bs ->
+  forall p st o, Rel root bs levels p st -> admissible p o ->
+  exists st' r, cstep ld root levels st o = Done (st', r) /\
+    (cstep (faulty_load ld j) root levels st o = Done (st', r) \/
+     cstep (faulty_load ld j) root levels st o = Fail (EIo IO_INJECTED)).
+Proof. exact reader_fault_no_panic. Qed.
+Print Assumptions C12_reader_no_panic.
